@@ -1,5 +1,7 @@
 //! Which scenarios / run classes decide which property, with budgets per tier.
 use crate::driver::ClassSpec;
+use crate::sc_agg::AGG;
+use crate::sc_codec::CODEC;
 use crate::sc_crypt::CRYPT;
 use crate::sc_entropy::ENTROPY;
 use crate::sc_pok::POK;
@@ -37,6 +39,17 @@ pub fn spec(id: &str) -> Option<PropSpec> {
         also_checked_profile: false,
     };
     match id {
+        "C06" => Some(base(
+            vec![cs(&AGG, "agg-protocol", 350, 6000, false), cs(&AGG, "agg-direct", 250, 5000, false), cs(&AGG, "agg-every-n", 12, 63 * 6 * 3, false)],
+            "cases = (group, scheme, list length, list kind {exact, permuted, reversed, one of 12 relay perturbations}, repeated-message flag, reference decision) over arrival histories under loss/duplication/reordering with and without de-duplication at the aggregator; \
+             class `agg-every-n` walks n = 2..=64; non-trivial = every list other than the exact one",
+            vec!["cur-blst"],
+        )),
+        "C07" => Some(base(
+            vec![cs(&AGG, "multi-protocol", 300, 6000, false), cs(&AGG, "multi-direct", 200, 4000, false), cs(&AGG, "multi-every-n", 10, 63 * 6 * 2, false)],
+            "cases = (group, scheme in {Basic, PoP}, number of accumulated contributions, arrivals incomplete?, fault-script length) and, per run, every single-signer omission / re-addition / replacement / stranger addition (all positions for n <= 12, sampled above) and another message; non-trivial = runs with lost or duplicated contributions and every negative case",
+            vec!["cur-blst"],
+        )),
         "C08" => Some(base(
             vec![
                 cs(&THRESH, "clean", 150, 2000, false),
@@ -118,6 +131,52 @@ pub fn spec(id: &str) -> Option<PropSpec> {
             "cases = (group, number of voters, which ballots arrived in which order under loss/duplication/delay, fault-script length) with conservation oracle, threshold share subset; proof perturbation kind over (c1, c2, message_proof, blinder_proof, challenge, pk); non-trivial = sums of >1 ciphertext, runs with faults, all altered proofs",
             vec!["cur-blst"],
         )),
+        "C15" => Some(base(
+            vec![cs(&CODEC, "vault", 48, 600, false)],
+            "cases = (group, data type (all 28), codec {bytes via &[u8] / Vec<u8> / &Vec<u8> / Box<[u8]>, serde_bare, serde_json, big- and little-endian for scalar types and the curve-tagged key wrapper}, specimen kind {generated, identity point, scalar 1 / r-1, each scheme variant, timestamps 0 / 2^63 / u64::MAX, share identifiers incl. 1 and 255, payload 0 B .. 64 KiB}); \
+             every specimen is written to a vault's disk, survives a crash/restart, is reloaded, compared (bytes and PartialEq) and forwarded to a second vault in another codec; the type x group x scheme x codec table is enumerated in every run, values within a cell are seeded; non-trivial = edge specimens",
+            vec!["cur-blst"],
+        )),
+        "C16" => Some(base(
+            vec![cs(&CODEC, "byz-encoder", 16, 200, false), cs(&CODEC, "random-bytes", 60, 4000, false)],
+            "cases = (group, data type, codec {bytes, bare, json}, point position, malformation {on-curve point outside the subgroup, x with no curve point, compression flag cleared, infinity flag with coordinates, infinity with sign, x >= p}) + every strict prefix of every encoding (torn/short write) + other lengths for exact-length types + zero / r / 2r for byte-imported scalars + invalid payloads in share containers at every use site + corrupted/random byte strings whose accepted outputs are re-checked point by point; all cases non-trivial",
+            vec!["cur-blst", "ref (point classification only)"],
+        )),
+        "C17" => Some(PropSpec {
+            also_checked_profile: true,
+            needs_clock: true,
+            ..base(
+                vec![
+                    cs(&CODEC, "hostile-decoders", 32, 400, false),
+                    cs(&CODEC, "hostile-frames", 6, 60, false),
+                    cs(&CODEC, "hostile-scalars", 2, 2, true),
+                    cs(&CODEC, "vault", 4, 40, false),
+                    cs(&CODEC, "byz-encoder", 2, 20, false),
+                    cs(&CODEC, "random-bytes", 10, 400, false),
+                    cs(&SIGN, "tamper", 200, 4000, false),
+                    cs(&SIGN, "relabel", 20, 400, false),
+                    cs(&SIGN, "registry", 30, 600, false),
+                    cs(&SIGN, "retry-restart", 40, 800, false),
+                    cs(&CRYPT, "sc-tamper", 200, 4000, false),
+                    cs(&CRYPT, "sc-bitflip-all", 2, 12, false),
+                    cs(&CRYPT, "tl-tamper", 200, 4000, false),
+                    cs(&CRYPT, "tl-bitflip-all", 2, 12, false),
+                    cs(&CRYPT, "td-protocol", 40, 800, false),
+                    cs(&CRYPT, "tl-beacon", 40, 800, false),
+                    cs(&CRYPT, "eg-proof-tamper", 100, 2000, false),
+                    cs(&CRYPT, "eg-tally", 40, 800, false),
+                    cs(&AGG, "agg-protocol", 40, 800, false),
+                    cs(&AGG, "multi-protocol", 40, 800, false),
+                    cs(&THRESH, "byzantine", 60, 1200, false),
+                    cs(&THRESH, "faulty", 40, 800, false),
+                    cs(&POK, "ts-tamper", 300, 6000, false),
+                    cs(&POK, "ts-future", 100, 2000, false),
+                    cs(&POK, "interactive-tamper", 100, 2000, false),
+                ],
+                "every library call made by any party in any scenario is monitored (unwinding = violation, recorded with file:line; a worker without progress for 120 s = loop). Cases = hostile-input runs: every truncation length, bit flips, extensions and hex-digit corruption of valid encodings of all 28 types in all codecs followed by every accessor of whatever decoded; valid signcryption / time-lock envelopes around attacker-chosen framing bytes; 14 timestamp x 9 timeout x 5 clock-skew classes; all 256 byte-OR values of the zero test; plus the tamper/Byzantine classes of the other scenarios. Everything runs in the release profile and again in a profile with debug assertions and overflow checks. All cases non-trivial.",
+                vec!["cur-blst (release)", "cur-blst (checked: debug-assertions + overflow-checks)"],
+            )
+        }),
         "C20" => Some(PropSpec {
             needs_entropy: true,
             needs_clock: true,
